@@ -6,7 +6,7 @@ from __future__ import annotations
 import ast
 import copy
 import re
-from typing import Any, Dict, List, Optional, Tuple
+from typing import Any, Dict, List, Optional, Set, Tuple
 
 from ..cfg import cfg_of
 from ..context import Ctx
@@ -762,4 +762,281 @@ def rule_sidamb(ctx: Ctx) -> RuleResult:
         if not shadowed:
             res.ok(f"sid templates ({kind} strings)", "no template is shadowed by an earlier one")
     res.floor(n_pairs, 20, "same-depth sid template pairs compared")
+    return res
+
+
+def rule_deadpattern(ctx: Ctx) -> RuleResult:
+    """C04 / C01: every pattern entry of key_patterns that names a placeholder of some type it selects takes effect on that type: an
+    entry whose find-string was already consumed by an earlier group (selectors and pairs are applied in table order) is dead, and the
+    values it was meant to constrain are accepted"""
+    res = RuleResult("R-DEADPATTERN")
+    tabs = sid_tables(ctx)
+    kp = ctx.conf.sid_value("key_patterns", dict)
+    n = 0
+    for typ, template in tabs["extrapolated"].items():
+        cur = template
+        for selector, pairs in kp.items():
+            if selector not in typ:
+                continue
+            for find, repl in pairs.items():
+                if find in template:
+                    n += 1
+                    if find not in cur:
+                        res.violation(["key_patterns", selector, find, typ], f"key_patterns['{selector}']['{find}'] never applies to type '{typ}': an earlier group "
+                                                                             f"already replaced that placeholder, so the pattern `{str(repl)[:50]}` does not "
+                                                                             f"constrain the values of this type", "spil_hamlet_conf/spil_sid_conf.py", 0)
+                cur = cur.replace(find, repl)
+    res.floor(n, 10, "pattern entries that name a placeholder of a selected type")
+    res.ok("key_patterns", f"{n} (group, placeholder, type) entries: each finds its placeholder still unreplaced when its turn comes", nontrivial=False)
+    return res
+
+
+def rule_confshadow(ctx: Ctx) -> RuleResult:
+    """C05 / C06 / C13: PathConfig copies every public member of its configuration module onto itself, after it has set its own
+    attributes: a module-level name that is also one of those attributes replaces it - `name` is the key of the Resolver instance, so
+    two configurations with the same stray `name` share whichever Resolver was built first"""
+    res = RuleResult("R-CONFSHADOW")
+    init = ctx.p.function("spil.sid.pathops.pathconfig.PathConfig.__init__")
+    own = set()
+    for n in own_nodes(init.node):
+        if isinstance(n, (ast.Assign, ast.AnnAssign)):
+            for t in (n.targets if isinstance(n, ast.Assign) else [n.target]):
+                if isinstance(t, ast.Attribute) and isinstance(t.value, ast.Name) and t.value.id == "self":
+                    own.add(t.attr)
+    copies = any(isinstance(n, ast.Call) and dotted(n.func) == "setattr" and n.args and norm(n.args[0]) == "self" for n in own_nodes(init.node))
+    if not copies:
+        res.note("PathConfig.__init__", "does not copy module members with setattr any more: nothing to shadow")
+        return res
+    res.floor(len(own), 1, "attributes PathConfig sets itself")
+    tabs = fs_tables(ctx)
+    first = list(tabs)[0]
+    n = 0
+    for cname, env in tabs[first].items():
+        n += 1
+        clash = sorted(k for k in env.keys() if k in own)
+        if clash:
+            res.violation(["path configuration", cname, "shadowed attribute", clash[0]],
+                          f"the module of path configuration '{cname}' has a module-level name `{clash[0]}` (a loop variable or constant left behind): "
+                          f"PathConfig copies it over its own `self.{clash[0]}`" + (": the Resolver instances of the configurations are looked up by "
+                                                                                   "that name and collapse into one" if clash[0] == "name" else ""),
+                          env_file(cname, ctx), 0)
+        else:
+            res.ok(f"path configuration {cname}", f"no module-level name among {sorted(own)}")
+    res.floor(n, 2, "path configurations")
+    return res
+
+
+def rule_leafkeys(ctx: Ctx) -> RuleResult:
+    """C07 / C08 / C10: '**' completes a search to the leaf types of the root's basetype, `leaf_keys[basetype]` names the key they end in.
+    Every basetype a root can have (the part of a type name before the separator, or the name itself) has an entry, and the entry is
+    the last key of the deepest template that continues that basetype's own templates."""
+    res = RuleResult("R-LEAFKEYS")
+    tabs = sid_tables(ctx)
+    final = tabs["final"]
+    leaf = tabs["leaf_keys"]
+    keys_of = {t: T.placeholders(tpl) for t, tpl in final.items()}
+    basetypes = []
+    for t in final:
+        b = t.split("__")[0]
+        if b not in basetypes:
+            basetypes.append(b)
+    n = 0
+    for b in basetypes:
+        own = [keys_of[t] for t in final if t.split("__")[0] == b]
+        root = min(own, key=len)
+        ext = [ks for ks in keys_of.values() if ks[:len(root)] == root]
+        deepest = max(len(ks) for ks in ext)
+        lasts = sorted({ks[-1] for ks in ext if len(ks) == deepest})
+        n += 1
+        if b not in leaf:
+            res.violation(["leaf_keys", b, "missing"], f"leaf_keys has no entry for basetype '{b}': a '/**' right after a {b} root ends in an error "
+                                                       f"instead of the leaf searches below it", "spil_hamlet_conf/spil_sid_conf.py", 0)
+        elif len(lasts) == 1 and leaf[b] != lasts[0]:
+            res.violation(["leaf_keys", b, str(leaf[b])], f"leaf_keys['{b}'] is '{leaf[b]}', but the deepest templates below a {b} root end in "
+                                                          f"'{lasts[0]}': '/**' after such a root completes to the wrong level (or to nothing)",
+                          "spil_hamlet_conf/spil_sid_conf.py", 0)
+        else:
+            res.ok(f"leaf_keys['{b}']", f"'{leaf[b]}': the last key of the deepest template ({deepest} keys) below a {b} root")
+    res.floor(n, 2, "basetypes")
+    return res
+
+
+def _closed_alternatives(expr: Optional[str]) -> Optional[Set[str]]:
+    """`(a|b|\\*|\\>)` -> {'a', 'b'}: the literal values of a closed vocabulary (search symbols left out); None if it is not one"""
+    import re as _re
+
+    if not expr:
+        return None
+    e = expr.strip()
+    if e.startswith("(") and e.endswith(")"):
+        e = e[1:-1]
+    parts = e.split("|")
+    out = set()
+    for p_ in parts:
+        if p_ in ("\\*", "\\>", "\\<"):
+            continue
+        if not _re.fullmatch(r"[A-Za-z0-9_\-]+", p_):
+            return None
+        out.add(p_)
+    return out or None
+
+
+def rule_constvocab(ctx: Ctx) -> RuleResult:
+    """C11 / C12: a level that the data configuration answers from constants (FindInConstants(key, values)) lists exactly the values the
+    Sid templates accept for that key: a value the templates know and the constants do not is an entity that exists, can be created and
+    found by its own Sid, but is missing from every search over that level (children, siblings, '*')"""
+    res = RuleResult("R-CONSTVOCAB")
+    gf = ctx.p.function("spil_data_conf.get_finder_for")
+    tabs = sid_tables(ctx)
+    n = 0
+    for c in own_nodes(gf.node):
+        if not (isinstance(c, ast.Call) and (dotted(c.func) or "").split(".")[-1] == "FindInConstants" and len(c.args) >= 2):
+            continue
+        if not isinstance(c.args[0], ast.Constant):
+            continue
+        key = c.args[0].value
+        vexpr = c.args[1]
+        values = None
+        if isinstance(vexpr, (ast.List, ast.Tuple)) and all(isinstance(e, ast.Constant) for e in vexpr.elts):
+            values = [e.value for e in vexpr.elts]
+        elif isinstance(vexpr, ast.Name):
+            try:
+                values = list(ctx.conf.sid_value(vexpr.id, list))
+            except Exception:
+                values = None
+        if values is None:
+            res.note(f"FindInConstants('{key}', {norm(vexpr)[:30]})", "values not a literal list / configured list: not compared")
+            continue
+        accepted: Set[str] = set()
+        closed = True
+        for t, tpl in tabs["final"].items():
+            for p_ in T.parse_template(tpl):
+                if p_.kind == "ph" and p_.text == key:
+                    alts = _closed_alternatives(p_.expr)
+                    if alts is None:
+                        closed = False
+                    else:
+                        accepted |= alts
+        n += 1
+        if not closed or not accepted:
+            res.note(f"FindInConstants('{key}', …)", "the templates do not restrict this key to a closed vocabulary")
+            continue
+        missing = sorted(accepted - set(values))
+        extra = sorted(set(values) - accepted)
+        if missing or extra:
+            res.violation(["get_finder_for", "FindInConstants", key], f"FindInConstants('{key}', {values}) and the Sid templates disagree on the values of "
+                                                                      f"'{key}': " + (f"{missing} accepted by the templates but not listed (such entities exist "
+                                                                                      f"and are never found by a search over this level)" if missing else "")
+                          + (f" {extra} listed but accepted by no template" if extra else ""), gf.relpath, c.lineno)
+        else:
+            res.ok(f"FindInConstants('{key}', …)", f"{sorted(values)} = the closed vocabulary of '{{{key}}}' in the Sid templates")
+    res.floor(n, 3, "FindInConstants instances in get_finder_for")
+    return res
+
+
+def rule_aliasvalue(ctx: Ctx) -> RuleResult:
+    """C07 / C09 / C12: an extension alias is itself a value the templates accept wherever they accept its members, so that a Sid written
+    with the alias is typed (get_last / exists / children of such a Sid start from a typed Sid, and the search unfolds from it)"""
+    import re as _re
+
+    res = RuleResult("R-ALIASVALUE")
+    tabs = sid_tables(ctx)
+    alias = tabs["extension_alias"]
+    leaf = set(tabs["leaf_keys"].values())
+    n = 0
+    for a, members in alias.items():
+        for t, tpl in tabs["final"].items():
+            for p_ in T.parse_template(tpl):
+                if p_.kind != "ph" or p_.text not in leaf or not p_.expr:
+                    continue
+                try:
+                    rx = _re.compile(p_.expr)
+                except _re.error:
+                    continue
+                if members and all(rx.fullmatch(m_) for m_ in members):
+                    n += 1
+                    if not rx.fullmatch(a):
+                        res.violation(["extension_alias", a, t], f"type '{t}' accepts {list(members)[:4]} for '{p_.text}' but not their alias '{a}': a Sid "
+                                                                 f"written with the alias is untyped, so get_last / exists / children on it answer empty "
+                                                                 f"although the search with the same alias finds entries", "spil_hamlet_conf/spil_sid_conf.py", 0)
+    res.floor(n, 2, "(alias, type) pairs whose members the type accepts")
+    res.ok("extension_alias", f"{n} (alias, type) pairs: the alias is accepted wherever all its members are", nontrivial=False)
+    return res
+
+
+def rule_keysetdisj(ctx: Ctx) -> RuleResult:
+    """C02 / C04: types with the same keys are told apart by their values alone (Sid(fields=..) and a query take the first type that
+    fits; a concrete Sid that fits two is refused by apply_query): no concrete string is accepted by two templates with identical keys"""
+    from .. import nfa
+
+    res = RuleResult("R-KEYSETDISJ")
+    final = sid_tables(ctx)["final"]
+    keys = {t: tuple(T.placeholders(tpl)) for t, tpl in final.items()}
+    names = list(final)
+    n = 0
+    for i, a in enumerate(names):
+        for b in names[i + 1:]:
+            if keys[a] != keys[b]:
+                continue
+            n += 1
+            try:
+                w = nfa.witness_of_intersection(_resolva_regex(final[a])[0], _resolva_regex(final[b])[0], "*><,")
+            except nfa.Unsupported as e:
+                raise AnalysisError(f"R-KEYSETDISJ: sid template '{a}' or '{b}' uses a construct outside the supported subset: {e}")
+            if w is not None:
+                res.violation(["sid_templates", "same keys", a, b], f"sid templates '{a}' and '{b}' have the same keys and both accept the concrete string "
+                                                                   f"{w!r}: the fields of such a Sid fit two types, so rebuilding it from fields / query "
+                                                                   f"gives the first type or is refused as ambiguous", "spil_hamlet_conf/spil_sid_conf.py", 0)
+            else:
+                res.ok(f"{a} / {b}", "same keys, no common concrete string")
+    res.floor(n, 4, "pairs of sid templates with identical keys")
+    return res
+
+
+def rule_deadtype(ctx: Ctx) -> RuleResult:
+    """C01 / C11 / C15: no sid template is swallowed by an earlier one. If every segment of a later template accepts only values that
+    the earlier template's segment accepts too, no string is ever given the later type: its entities are typed as the earlier one
+    (which may have no path, other keys, another Finder)"""
+    import re as _re
+
+    res = RuleResult("R-DEADTYPE")
+    final = sid_tables(ctx)["final"]
+    names = list(final)
+
+    def seg_exprs(tpl: str):
+        out = []
+        for seg in T.segments(tpl):
+            if len(seg) == 1 and seg[0].kind == "ph":
+                out.append(("ph", seg[0].expr))
+            else:
+                out.append(("mixed", "".join((p.text if p.kind == "lit" else "{" + p.text + ":" + str(p.expr) + "}") for p in seg)))
+        return out
+
+    def included(later, earlier) -> bool:
+        kl, el = later
+        ke, ee = earlier
+        if kl != ke:
+            return False
+        if kl == "mixed":
+            return el == ee
+        if ee is None or ee in ("[^/]*", ".*", "[^/]+"):
+            return True  # free segment
+        if el == ee:
+            return True
+        al, ae = _closed_alternatives(el), _closed_alternatives(ee)
+        return al is not None and ae is not None and al <= ae
+    n = 0
+    for i, a in enumerate(names):
+        sa_ = seg_exprs(final[a])
+        for b in names[i + 1:]:
+            sb_ = seg_exprs(final[b])
+            if len(sa_) != len(sb_):
+                continue
+            n += 1
+            if all(included(x, y) for x, y in zip(sb_, sa_)):
+                res.violation(["sid_templates", "swallowed", b, a], f"sid template '{b}' comes after '{a}', which accepts every string '{b}' accepts "
+                                                                    f"(segment by segment): no string is ever typed '{b}'; its entities become '{a}' Sids",
+                              "spil_hamlet_conf/spil_sid_conf.py", 0)
+    res.floor(n, 20, "same-depth sid template pairs compared")
+    res.ok("sid templates", f"{n} same-depth pairs: no later template is contained in an earlier one", nontrivial=False)
     return res
